@@ -31,12 +31,13 @@ theorem C12_count_inv (cfg : Cfg) (ops : List Op) (k : Svc) :
   · simp only [registered]; rw [h1]; simp
   · rw [h2]; simp
 
-/-- **The working tree contains all five repairs**: the switch values extracted from `trigger_init`,
-`ServiceDecorator.start`, `on_func_var_deleted`, `GlobalContext.start` and `service_register` / `service_remove` (the
-lower-cased key) are the repaired ones (undoing a repair in the source makes this theorem fail). -/
+/-- **The working tree contains all six repairs**: the switch values extracted from `trigger_init`,
+`ServiceDecorator.start`, `on_func_var_deleted`, `GlobalContext.start`, `service_register` / `service_remove` (the
+lower-cased key) and the built-in name tests of `trigger_init` / `ServiceDecorator.validate` are the repaired ones
+(undoing a repair in the source makes this theorem fail). -/
 theorem C12_cfg_current :
-    legacyCfg = ⟨true, false, false, false, false, true, false, false, true⟩ ∧
-    newCfg = ⟨false, false, true, true, true, false, true, true, true⟩ := by decide
+    legacyCfg = ⟨true, false, false, false, false, true, false, false, true, true⟩ ∧
+    newCfg = ⟨false, false, true, true, true, false, true, true, true, true⟩ := by decide
 
 /-- **A refused name is not remembered** (tie of `acquireAll`, which tracks a name only after `register` accepted it, to the
 source): in `trigger_init` the statement `self.trigger_service.add(srv_name)` comes after `Function.service_register(...)`,
@@ -451,6 +452,63 @@ theorem C12_regress_case_variant_owner :
     (∀ cfg ∈ [caseSensitive legacyCfg, caseSensitive newCfg], aget "pyscript.case1" (run cfg {} ops).reg.ha = some ⟨2, .none⟩) ∧
     (∀ cfg ∈ [legacyCfg, newCfg], aget "pyscript.case1" (run cfg {} ops).reg.ha = some ⟨1, .none⟩ ∧
       aget "pyscript.case1" (run cfg {} ops).reg.owner = some ⟨"a", none⟩) := by decide +kernel
+
+/-- **Everything proved about `run` holds behind the built-in name test**: the test only decides which operation the
+machine sees (a definition with fewer names, or the mere loss of the old function object), so the invariants, counts,
+ownership and the agreement with Home Assistant's table carry over to `runB` for every switch setting and sequence. -/
+theorem C12_builtin_filter (cfg : Cfg) (ops : List Op) (k : Svc) :
+    runB cfg {} ops = run cfg {} (ops.map (admitOp cfg)) ∧
+    (registered (runB cfg {} ops).reg k = true ↔ cntOf (runB cfg {} ops).reg k > 0) ∧
+    (runB cfg {} ops).reg.underflow = false ∧
+    (cfg.foldCase = true → (runB cfg {} ops).reg.ha = (runB cfg {} ops).reg.handler) :=
+  ⟨rfl, (C12_count_inv cfg (ops.map (admitOp cfg)) k).1, C12_remove_safe cfg (ops.map (admitOp cfg)),
+   fun hf => C12_ha_agrees cfg hf (ops.map (admitOp cfg))⟩
+
+/-- **Any spelling of a built-in name is refused today** (decision logic of the test, both subsystems): the machine
+never sees a declaration whose service part lower-cases to `reload` / `jupyter_kernel_start`. -/
+theorem C12_builtin_refused (cfg : Cfg) (hf : cfg.foldBuiltin = true) (ctx : String) (fn : Option String) (var : String)
+    (gen : Nat) (decl : List (Svc × Resp)) :
+    match admitOp cfg (.define ctx fn var gen decl) with
+    | .define _ _ _ _ d => ∀ x ∈ d, lower (svcPart x.1) ∉ BUILTIN_SERVICES
+    | .delete c v => c = ctx ∧ v = var ∧ ∃ x ∈ decl, lower (svcPart x.1) ∈ BUILTIN_SERVICES
+    | _ => False := by
+  unfold admitOp
+  by_cases hr : cfg.rollback = true
+  · simp only [hr, if_true]
+    by_cases ha : decl.any (fun d => builtinHit cfg d.1) = true
+    · simp only [ha, if_true]
+      obtain ⟨x, hx, hh⟩ := List.any_eq_true.mp ha
+      exact ⟨by simp, by simp, x, hx, by simpa [builtinHit, hf] using hh⟩
+    · simp only [ha, Bool.false_eq_true, if_false]
+      intro x hx
+      have hn : builtinHit cfg x.1 = false := by
+        cases hb : builtinHit cfg x.1
+        · rfl
+        · exact absurd (List.any_eq_true.mpr ⟨x, hx, hb⟩) ha
+      simpa [builtinHit, hf] using hn
+  · simp only [hr, Bool.false_eq_true, if_false]
+    intro x hx
+    have := mem_takeWhile_pred _ _ x hx
+    simpa [builtinHit, hf] using this
+
+/-- **F10 – regression witness (both subsystems)**: before the repair the test looked at the name as written:
+`@service('pyscript.Reload')` passed, and Home Assistant – which lower-cases – filed the script function under
+`pyscript.reload`, the key of pyscript's own reload service (replaced; and removed with the function: the count goes
+1 → 0).  Today every spelling is refused: nothing of the script's is ever filed under that key; a function that names
+other services too keeps those declared before the offending name (legacy) or none at all (new). -/
+theorem C12_regress_builtin_case :
+    let d1 := Op.define "a" (some "opA") "f" 1 [("pyscript.Reload", .none)]
+    let d2 := Op.define "a" (some "opA") "g" 2 [("pyscript.s1", .none), ("test.RELOAD", .none), ("pyscript.s2", .none)]
+    (∀ cfg ∈ [builtinAsWritten legacyCfg, builtinAsWritten newCfg],
+      aget "pyscript.reload" (runB cfg {} [d1]).reg.ha = some ⟨1, .none⟩ ∧
+      cntOf (runB cfg {} [d1]).reg "pyscript.reload" = 1 ∧ cntOf (runB cfg {} [d1, .delete "a" "f"]).reg "pyscript.reload" = 0) ∧
+    (∀ cfg ∈ [legacyCfg, newCfg],
+      aget "pyscript.reload" (runB cfg {} [d1]).reg.ha = none ∧ cntOf (runB cfg {} [d1]).reg "pyscript.reload" = 0 ∧
+      aget "test.reload" (runB cfg {} [d2]).reg.ha = none ∧ aget "pyscript.s2" (runB cfg {} [d2]).reg.ha = none) ∧
+    aget "pyscript.s1" (runB legacyCfg {} [d2]).reg.ha = some ⟨2, .none⟩ ∧
+    aget "pyscript.s1" (runB newCfg {} [d2]).reg.ha = none ∧
+    admitOp legacyCfg (.define "a" none "f" 1 [("pyscript.reload", .none)]) = .define "a" none "f" 1 [] ∧
+    admitOp newCfg (.define "a" none "f" 1 [("pyscript.jupyter_kernel_start", .none)]) = .delete "a" "f" := by decide +kernel
 
 /-- **F2 – regression witness (legacy)**: before the repair a function that named the same service twice registered it
 twice but remembered it once (`trigger_service` is a set): deleting the function left the service registered – count 1,
